@@ -95,6 +95,17 @@ var c20Cmds = []string{
 	"rsync --server --sender -r --gokr.dont_restrict . %S/secret_dir/",
 	"'rsync' '--server' '--sender' '-r' '.' '%S/secret_dir/'",
 	"rsync --server --sender -r . %S/secret_dir/ --daemon-not",
+	// command lines without a program name in front: whoever skips "argv[0]"
+	// once too often (or not often enough) sees another command
+	"--daemon --server . %S/planted_dir/",
+	"--daemon --server -r . %S/planted_dir/",
+	"--daemon --server --sender -r . %S/secret_dir/",
+	"--server --daemon . %S/planted_dir/",
+	"--server --sender -r . %S/secret_dir/",
+	"--server -r . %S/planted_dir/",
+	"x --server -r . %S/planted_dir/",
+	"x --server --sender -r . %S/secret_dir/",
+	"--daemon",
 }
 
 // spellings of the daemon invocation (what `rsync -e ssh host::module` sends)
@@ -130,6 +141,9 @@ func (c20) Generate(seed uint64, tier string, index int) any {
 				// an unlisted key that first shows a LISTED public key (query without
 				// signature) and then signs with its own key
 				sc.Sessions = append(sc.Sessions, C20Session{Key: i, Op: "trick-auth"})
+			}
+			if !sc.Keys[i].Listed && g.R.Intn(2) == 0 {
+				sc.Sessions = append(sc.Sessions, C20Session{Key: i, Op: []string{"cert-forged", "cert-signed"}[g.R.Intn(2)]})
 			}
 			sc.Sessions = append(sc.Sessions, C20Session{Key: i, Op: "daemon", Cmd: c20DaemonCmds[0]})
 			if g.R.Intn(3) == 0 {
@@ -208,6 +222,7 @@ type c20Result struct {
 	chanErr      error
 	listing      []string
 	status       string
+	engaged      []byte // file data obtained by playing the matching client for real
 }
 
 func (c20) Run(t *testing.T, scenario any, job *Job, res *Result) {
@@ -327,6 +342,31 @@ func (c20) Run(t *testing.T, scenario any, job *Job, res *Result) {
 					sg = &trickSigner{real: signers[s.Key], decoy: decoy}
 					s.Op, s.Cmd = "daemon", c20DaemonCmds[0]
 				}
+				if s.Op == "cert-forged" || s.Op == "cert-signed" {
+					// an UNLISTED key wrapped in an OpenSSH certificate that names a
+					// LISTED key as its issuer: with a forged signature, or really
+					// signed by the listed key. authorized_keys lists plain keys, not
+					// certificate authorities: neither may be admitted.
+					var issuer ssh.Signer
+					for k := range sc.Keys {
+						if sc.Keys[k].Listed {
+							issuer = signers[k]
+						}
+					}
+					if issuer != nil {
+						cert := &ssh.Certificate{Key: signers[s.Key].PublicKey(), CertType: ssh.UserCert, KeyId: "verif", ValidPrincipals: []string{"anyone"}, ValidBefore: ssh.CertTimeInfinity}
+						if s.Op == "cert-signed" {
+							cert.SignCert(rand.Reader, issuer)
+						} else {
+							cert.SignCert(rand.Reader, signers[s.Key])
+							cert.SignatureKey = issuer.PublicKey()
+						}
+						if cs, err := ssh.NewCertSigner(cert, signers[s.Key]); err == nil {
+							sg = cs
+						}
+					}
+					s.Op, s.Cmd = "daemon", c20DaemonCmds[0]
+				}
 				p := sim.Go("sshclient", func() error {
 					c20Client(end, sg, s, subst, r)
 					return nil
@@ -393,7 +433,7 @@ func (c20) Run(t *testing.T, scenario any, job *Job, res *Result) {
 			res.Violate("key-admission", "anon-refused", fmt.Sprintf("%s: anonymous listener refused the connection: %v", desc, r.handshakeErr))
 			return
 		}
-		if bytes.Contains(r.stdout, secret[:40]) {
+		if bytes.Contains(r.stdout, secret[:40]) || bytes.Contains(r.engaged, secret[:40]) {
 			res.Violate("anon-exposure", "secret-on-channel:"+cmdClass(s), fmt.Sprintf("%s: the session returned the content of a file outside every module", desc))
 			return
 		}
@@ -616,7 +656,30 @@ func c20Client(conn net.Conn, signer ssh.Signer, s C20Session, subst func(string
 			}
 		}
 	}
-	if s.Op != "daemon" && s.Op != "daemon-evil" && r.execOK {
+	engaged := false
+	if (s.Op == "exec" || s.Op == "env-exec") && r.execOK && strings.Contains(s.Cmd, "--server") && !strings.Contains(s.Cmd, "%C") {
+		// whatever the command line looks like: if a command-mode server was
+		// started behind it, play the matching client for real, so that data
+		// would actually flow out of (or into) the outside directory
+		engaged = true
+		w := refproto.NewWire(ch, ch)
+		if strings.Contains(s.Cmd, "--sender") {
+			pr, _ := refproto.Pull(w, refproto.PullOpts{Negotiate: true, ServerIsSender: true, MaxData: 1 << 20,
+				Plan: func(int, *refproto.Entry, int32) (bool, []byte, int, int) { return true, nil, 0, 0 }})
+			if pr != nil {
+				for _, f := range pr.Files {
+					r.engaged = append(r.engaged, f.Data...)
+				}
+			}
+		} else {
+			refproto.Send(w, refproto.SendOpts{Negotiate: true,
+				Entries: []refproto.Entry{{Name: ".", Mode: refproto.SIFDIR | 0755, Mtime: 1500000000, Size: 4096, Flags: refproto.XTopDir},
+					{Name: "planted_by_session", Mode: refproto.SIFREG | 0644, Mtime: 1500000000, Size: 7}},
+				Data: map[string][]byte{"planted_by_session": []byte("planted")}})
+		}
+		w.Flush()
+	}
+	if s.Op != "daemon" && s.Op != "daemon-evil" && r.execOK && !engaged {
 		// a transfer may be waiting for input: send a protocol version so that
 		// a command-mode server gets going, then close our side
 		ch.Write([]byte{27, 0, 0, 0, 0, 0, 0, 0})
